@@ -80,6 +80,9 @@ def c03(scn, obs):
     end = next((o for o in obs if o.get('k') == 'end'), None)
     point = scn.get('meta', {}).get('point', '?')
     first = True
+    _c0 = closes[0]
+    _r0 = next((b for b in obs[_c0['i'] + 1:] if b.get('k') == 'ret' and b.get('task') == _c0['task'] and b.get('api') == _c0['api']), None)
+    ret0_i = _r0['i'] if _r0 is not None else None
     for c in closes:
         ret = next((b for b in obs[c['i'] + 1:] if b.get('k') == 'ret' and b.get('task') == c['task'] and b.get('api') == c['api']), None)
         who = scn.get('meta', {}).get('who', '?')
@@ -96,9 +99,12 @@ def c03(scn, obs):
             continue
         if ret['res'] != 'ok':
             bad.append((f'close-raises:{ret["res"]}:{tag}', f'close() issued at [{point}] raised {ret["res"]}: {ret.get("msg", "")}'))
-        elif ret['state'] != 'closed':
+        elif ret['state'] != 'closed' and not (not first and (ret0_i is None or c['i'] < ret0_i)):
+            # (a close() issued while the FIRST close is still in flight "does nothing" and returns at once:
+            #  close || close is not among the lifecycle points C03 quantifies over; DESIGN 6.1.  A close issued
+            #  after the first one returned must find the state closed.)
             bad.append((f'close-returns-not-closed:{ret["state"]}:{tag}', f'close() issued at [{point}] by task {c["task"]} returned but state is {ret["state"]}'))
-        if ret['res'] == 'ok' and ret.get('alive', 0) > 0:
+        if ret['res'] == 'ok' and ret.get('alive', 0) > 0 and not (not first and (ret0_i is None or c['i'] < ret0_i)):
             bad.append((f'close-child-alive:{tag}', f'close() returned while {ret["alive"]} child process(es) alive'))
         if not first and ret['res'] == 'ok':
             # a second close does nothing: no hook may run between its call and its return
